@@ -1,38 +1,55 @@
 import Driver.Util
 import GitBugModel.Model.Cache
-/-! Driver command for C11: replay a cache session abstractly; after every action, which ids
-are in the excerpt map and in the index. -/
+import GitBugModel.Model.CacheStaged
+/-! Driver command for C11: replay a cache session on the finer model (GitBugModel.CacheStaged:
+operation lists, staging areas, excerpt file); after every recorded action: which ids are in the
+excerpt map and in the index, and for every listed bug the number of comments its excerpt shows
+and the number of operations it resolves to. Operations are "c" (makes a comment) or "o". -/
 namespace Driver.C11
-open Lean Driver GitBugModel.Cache
+open Lean Driver GitBugModel.CacheStaged
 
-def actOf (j : Json) : Option (Act String) :=
-  let id := getStr j "id"
-  match getStr j "a" with
-  | "new" => some (.new id (getStr j "v"))
-  | "commit" => some (.commit id (getStr j "v"))
-  | "merged" => some (.merged id (getStr j "v"))
-  | "nothing" => some .mergedNothing
-  | "remove" => some (.remove id)
-  | "evict" => some (.evict id)
-  | "resolve" => some (.resolve id)
-  | "reopen" => some .reopen
-  | _ => none
+abbrev S := St String
 
-def present (m : Map String) (ids : List String) : List String :=
+def present (m : Map (List String)) (ids : List String) : List String :=
   ((ids.eraseDups.filter fun i => (m i).isSome).toArray.qsort (· < ·)).toList
 
-/-- one recorded action = one or more model actions (a pull merges several entities) -/
-def actsOf (j : Json) : List (Act String) :=
+/-- bring the instance of `id` to hold exactly `full`: load it if needed, then stage what is missing -/
+def stageUpTo (s : S) (id : String) (full : List String) : S :=
+  let s := step s (.resolve id)
+  match s.loaded id with
+  | some l => (full.drop l.all.length).foldl (fun s op => step s (.stage id op)) s
+  | none => s
+
+/-- one recorded action = one or more model actions -/
+def apply (s : S) (j : Json) : S :=
+  let id := getStr j "id"
+  let ops := strArr j "ops"
   match getStr j "a" with
-  | "pull" => (strArr j "ids").map fun id => Act.merged id (getStr j "v")
-  | _ => (actOf j).toList
+  | "new" => step s (.new id ops)
+  | "stage" => stageUpTo s id ops
+  | "commit" => step (stageUpTo s id ops) (.commit id)
+  | "pull" =>
+    let opsOf := (getObj? j "opsOf").getD Json.null
+    (strArr j "ids").foldl (fun s id => step s (.merged id (strArr opsOf id))) s
+  | "remove" => step s (.remove id)
+  | "evict" => step s (.evict id)
+  | "resolve" => step s (.resolve id)
+  | "reopen" => step s .reopen
+  | _ => s
+
+def observe (s : S) : Json :=
+  let ids := present s.excerpts s.ids
+  let bugs := ids.filterMap fun id =>
+    match s.excerpts id, (served s).resolved id with
+    | some ex, some r => some (id, jnats [(ex.filter (· == "c")).length, r.length])
+    | _, _ => none
+  Json.mkObj [("excerpts", jstrs ids), ("index", jstrs (present s.index s.ids)), ("bugs", Json.mkObj bugs)]
 
 def handle (j : Json) : Json :=
-  let groups := (getArr j "actions").map actsOf
-  let init : St String := rebuild (fun _ => none) []
-  let (_, outs) := groups.foldl (fun (acc : St String × List Json) as =>
-    let s' := as.foldl step acc.1
-    (s', acc.2 ++ [Json.mkObj [("excerpts", jstrs (present s'.excerpts s'.ids)), ("index", jstrs (present s'.index s'.ids))]])) (init, [])
+  let init : S := rebuild (fun _ => none) []
+  let (_, outs) := (getArr j "actions").foldl (fun (acc : S × List Json) a =>
+    let s' := apply acc.1 a
+    (s', acc.2 ++ [observe s'])) (init, [])
   jarr outs
 
 end Driver.C11
